@@ -256,6 +256,17 @@ def check(ctx):
         cum = nf.mul(ys[1], M)
         okc = any(a[0] == "fn" and a[1] == "cumsum" for a in nf.atoms(cum)) and it2.single_atom(cum) is not None
         ctx.check(okc, "C20-b", q + ":scaled production " + tag(p, ()), f.where(), "curve 2 is cumulative production divided by M", signature="comparison production", y=nf.show(ys[1], 160))
+        # ... of the documented rows: with filtering exactly those with Gas > 0 and a pressure reading, else all rows
+        # (the selection fit_production_pressure makes, C18-d: the figure compares what was fitted)
+        base_ = nf.sym("prod_data")
+        colf = lambda t_, k_: nf.fn("[]", t_, nf.sym(repr(k_)))
+        if filt:
+            mask_ = nf.fn("bool:and", *sorted([nf.fn("cmp:>", colf(base_, "Gas"), {}), nf.fn("pandas.notna{0}", colf(base_, "Pressure"))], key=repr))
+            rows_ = nf.fn("rows", base_, mask_)
+        else:
+            rows_ = base_
+        frame_ = nf.fn("[]", rows_, nf.sym("'Days'"), nf.sym("'Gas'"), nf.sym("'Pressure'"))
+        ctx.identity("C20-b", q + ":rows plotted " + tag(p, ()), f.where(), "the production curve is the running sum of the Gas column of exactly the documented rows (Gas > 0 and a pressure reading when filtering, all rows otherwise)", cum, nf.fn("cumsum", colf(frame_, "Gas")))
         ctx.check(ys[2] == pf, "C20-b", q + ":frac-face pressure " + tag(p, ()), f.where(), "curve 3 is the frac-face pressure history handed to the simulation", signature="comparison pressure", y=nf.show(ys[2], 120))
         k, bad = scale_uses(p, q)
         ctx.check(k >= 2 and not bad, "C20-a", q + ":xscale " + tag(p, ()), f.where(), "both axes use the registered square-root scale name", signature="xscale " + ",".join(bad), nontrivial=False)
